@@ -279,6 +279,15 @@ func kindInProperty(o *Obligation, pd *PropertyDef) bool {
 			return true
 		}
 	}
+	// frame sweep: a postcondition that promises freshness ("the result is a new object") is what
+	// the callers' frame arguments rest on, so it is decided here as well
+	if o.Kind == "post" && strings.Contains(o.Src, "fresh(") {
+		for _, opt := range pd.Options {
+			if opt == "implicit-frame-contracts" {
+				return true
+			}
+		}
+	}
 	return false
 }
 
